@@ -7,7 +7,8 @@ correspondence: (a) compiled rule tables of all 118 elements, (b1) calc_implicit
                 (hydrogens, labels, fix_structure, brutto, charge, radical, mass, check_valence), (c) union / substructure /
                 split: whole result molecules (atoms in order, hydrogen counts, bonds) and exceptions, (d) the operations that write
                 hydrogen counts themselves: Standardize.implicify_hydrogens against its Gallina mirror (whole result), results of
-                canonicalize (keep_kekule / fix_tautomers on and off) and explicify + implicify judged by the model (stored_ok)
+                canonicalize (keep_kekule / fix_tautomers on and off) and explicify + implicify judged by the model (stored_ok),
+                (e) results of several edits inside one `with mol:` / _skip_calculation block: touched atoms fresh, stored counts valid
 search:         directed table search (every tabulated rule as a molecule: electron parity from the atomic number, octet rule,
                 RDKit on the bare graph), octet-rule oracle on the exhaustive space, closed form of the aromatic branch, RDKit atom
                 by atom (total Hs), aromatic atoms vs their Kekule form vs RDKit, formula / charge / mass re-derived from the atoms
@@ -1141,6 +1142,171 @@ def corr_writers(ck):
 
 
 # ---------------------------------------------------------------------------------------------------------------
+# (e) deferred recalculation: several structural edits inside ONE `with mol:` block (or with _skip_calculation=True followed by
+#     fix_structure()): the hydrogen counts are recalculated once, for the atoms recorded as changed
+
+def gen_histories(ck, rng):
+    """[(start SMILES, [edit, ...], mode)]; edits: ('bond', n, m, order) ('unbond', n, m) ('atom', element, neighbour, order)
+    ('del', n) ('charge', n, c).  Exhaustive: every ordered pair of add_bond edits (both argument orders) over the four carbons of
+    C.C.C.C; generated: 2..4 random edits on small and corpus molecules.  mode: 'with' | 'skip'"""
+    out = []
+    oriented = [(a, b_) for a in (1, 2, 3, 4) for b_ in (1, 2, 3, 4) if a != b_]
+    for e1 in oriented:
+        for e2 in oriented:
+            if {e1[0], e1[1]} != {e2[0], e2[1]}:
+                out.append(('C.C.C.C', [('bond',) + e1 + (1,), ('bond',) + e2 + (1,)], 'with' if (e1[0] + e2[1]) % 3 else 'skip'))
+    starts = ['CCCCCC', 'CC.O.N', 'C=C.CO', 'OC(=O)CC.N', 'C1CC1.CC', 'CS.CCl', '[NH4+].CC([O-])=O', 'c1ccccc1.C', 'CC(C)C.O.O']
+    starts += [x for x in corpus.sample(corpus.lipo(), 12 if ck.tier == 'quick' else 150, ck.seed, 'c04hist')]
+    for smi in starts:
+        for rep in range(6 if ck.tier == 'quick' else 20):
+            out.append((smi, None, 'with' if rep % 3 else 'skip', rng.random()))
+    return out
+
+
+def run_history(smi, edits, mode, r):
+    """apply the edits to smiles(smi) (Kekule form) inside one block; returns (molecule, edits applied, touched atoms) - the
+    touched set is computed from the edits themselves, never from the molecule's own bookkeeping"""
+    from chython import smiles
+    m = smiles(smi)
+    m.kekule()
+    rng = random.Random(f'{smi}:{r}')
+    if edits is None:
+        edits = []
+        atoms = list(m._atoms)
+        bonded = {frozenset((a, b_)) for a, b_, _ in m.bonds()}
+        nxt = max(atoms) + 1
+        for _ in range(rng.choice([2, 2, 3, 4])):
+            kind = rng.choice(['bond', 'bond', 'bond', 'unbond', 'atom', 'del', 'charge'])
+            if kind == 'bond':
+                free = [(a, b_) for a in atoms for b_ in atoms if a != b_ and frozenset((a, b_)) not in bonded]
+                if free:
+                    a, b_ = rng.choice(free)
+                    bonded.add(frozenset((a, b_)))
+                    edits.append(('bond', a, b_, rng.choice([1, 1, 1, 2])))
+            elif kind == 'unbond' and bonded:
+                pr = rng.choice(sorted(tuple(sorted(x)) for x in bonded))
+                bonded.discard(frozenset(pr))
+                edits.append(('unbond',) + (pr if rng.random() < 0.5 else pr[::-1]))
+            elif kind == 'atom':
+                a = rng.choice(atoms)
+                edits.append(('atom', rng.choice(['C', 'N', 'O', 'Cl']), a, 1, nxt))
+                bonded.add(frozenset((nxt, a)))
+                atoms.append(nxt)
+                nxt += 1
+            elif kind == 'del' and len(atoms) > 2:
+                a = rng.choice(atoms)
+                atoms.remove(a)
+                bonded = {x for x in bonded if a not in x}
+                edits.append(('del', a))
+            elif kind == 'charge':
+                edits.append(('charge', rng.choice(atoms), rng.choice([1, -1])))
+    touched = set()
+
+    def apply(skip):
+        kw = {'_skip_calculation': True} if skip else {}
+        for e in edits:
+            if e[0] == 'bond':
+                m.add_bond(e[1], e[2], e[3], **kw)
+                touched.update((e[1], e[2]))
+            elif e[0] == 'unbond':
+                m.delete_bond(e[1], e[2], **kw)
+                touched.update((e[1], e[2]))
+            elif e[0] == 'atom':
+                n = m.add_atom(e[1], e[4], **kw)
+                m.add_bond(e[2], n, e[3], **kw)      # the pre-existing atom FIRST, the new one second - and the other way below
+                touched.update((n, e[2]))
+            elif e[0] == 'del':
+                touched.update(k for k, bd in m._bonds[e[1]].items() if int(bd) != 8)
+                m.delete_atom(e[1], **kw)
+                touched.discard(e[1])
+            elif e[0] == 'charge':
+                m.atom(e[1]).charge = e[2]
+                touched.add(e[1])
+    if mode == 'with':
+        with m:
+            apply(False)
+    else:
+        if any(e[0] == 'charge' for e in edits):     # attribute setters are tracked by transactions only
+            edits = [e for e in edits if e[0] != 'charge']
+        apply(True)
+        m.fix_structure()
+        m.fix_stereo()
+    return m, edits, sorted(n for n in touched if n in m._atoms)
+
+
+def rebuild(m):
+    from chython import MoleculeContainer
+    x = MoleculeContainer()
+    for n, a in m.atoms():
+        x.add_atom(a.copy(), n)
+    for n, k, bd in m.bonds():
+        x.add_bond(n, k, int(bd))
+    return x
+
+
+def corr_histories(ck):
+    rng = random.Random(f'{ck.seed}:c04:hist')
+    capped = Capped(ck, 6)
+    cases, meta = [], []
+    for item in gen_histories(ck, rng):
+        smi, edits, mode = item[:3]
+        try:
+            m, edits, touched = run_history(smi, edits, mode, item[3] if len(item) > 3 else 0)
+        except Exception as e:
+            ck.count(f'histories:raised {type(e).__name__}')
+            continue
+        ck.case(('history', smi, tuple(edits), mode))
+        ck.count(f'histories:{mode} block with {len(edits)} edits')
+        code = ('from chython import smiles\nm = smiles(%r); m.kekule()\n' % smi) + \
+               ('with m:\n' + ''.join('    ' + edit_code(e, '') + '\n' for e in edits) if mode == 'with' else
+                ''.join(edit_code(e, ', _skip_calculation=True') + '\n' for e in edits) + 'm.fix_structure()\n') + \
+               'print(str(m), [(n, a.atomic_symbol, a.implicit_hydrogens, [h for h in range(9) if m.check_implicit(n, h)]) for n, a in m.atoms()], m.check_valence(), m.brutto)'
+        inp = {'start': smi, 'edits': [list(e) for e in edits], 'block': 'with mol:' if mode == 'with' else '_skip_calculation=True ... fix_structure()'}
+        # search: every stored count is a valence state; the molecule rebuilt from scratch carries the same counts and formula
+        bad = stored_states_ok(m)
+        if bad:
+            capped.counterexample(f'history-state:{smi}:{edits}:{mode}', 'after several edits in one block an atom carries a hydrogen count that is not a valence state of its '
+                                  'element, charge and bonds (a stale count: the atom was not recalculated)', inp,
+                                  [{'atom': n, 'element': e, 'stored': h, 'accepted': acc} for n, e, h, acc in bad], 'stored count accepted by check_implicit',
+                                  'check_implicit(n, h) for h = 0..8 on the result', replay_py=code)
+        else:
+            try:
+                x = rebuild(m)
+                hs, hx = {n: a.implicit_hydrogens for n, a in m.atoms()}, {n: a.implicit_hydrogens for n, a in x.atoms()}
+                if hs != hx:
+                    capped.counterexample(f'history-rebuild:{smi}:{edits}:{mode}', 'after several edits in one block the hydrogen counts differ from the same molecule built from scratch',
+                                          inp, {n: (hs[n], hx[n]) for n in hs if hs[n] != hx[n]}, 'equal counts', 'rebuild through add_atom / add_bond', replay_py=code)
+            except Exception:
+                ck.count('histories:rebuild raised')
+        loc = not any(int(bd) == 4 for *_, bd in m.bonds())
+        cases.append(f'(let g := {coqmol.mol_term(m)} in history_case g {lst(touched, zraw)} {b(loc)})')
+        meta.append((smi, edits, mode, touched, str(m)))
+    ok, failing, log = coqcases.run_cases('c04h', IMPORTS_X, cases, extra=EXTRA, shard=150)
+    good = ok and not failing
+    ck.oblige(f'correspondence: results of {len(cases)} edit histories inside one block (every ordered pair of add_bond edits over four carbons, 2..4 random '
+              'add_bond / delete_bond / add_atom / delete_atom / charge edits on small and corpus molecules; `with mol:` and _skip_calculation + fix_structure): the atoms '
+              'the edits touched carry what the model\'s calc_implicit gives (fresh_on), every stored count is a valence state for the model (stored_ok)',
+              good, 'correspondence', log or str([meta[i] for i in failing[:6]]))
+    ck.extra['history_cases'] = len(cases)
+    if not good:
+        ck.unchecked('correspondence ValenceArom.fresh_on / Valence.stored_ok on the results of edit histories inside one block', log[-1500:],
+                     [repr(meta[i]) for i in failing[:20]])
+    return good
+
+
+def edit_code(e, kw):
+    if e[0] == 'bond':
+        return f'm.add_bond({e[1]}, {e[2]}, {e[3]}{kw})'
+    if e[0] == 'unbond':
+        return f'm.delete_bond({e[1]}, {e[2]}{kw})'
+    if e[0] == 'atom':
+        return f'm.add_bond({e[2]}, m.add_atom({e[1]!r}, {e[4]}{kw}), {e[3]}{kw})'
+    if e[0] == 'del':
+        return f'm.delete_atom({e[1]}{kw})'
+    return f'm.atom({e[1]}).charge = {e[2]}'
+
+
+# ---------------------------------------------------------------------------------------------------------------
 # directed search for the table theorems: the molecule of every tabulated rule, judged without the tables
 
 NOBLE = (0, 2, 10, 18, 36, 54, 86, 118)
@@ -1748,10 +1914,12 @@ def run(ck):
     lap('compose')
     tied_f = corr_writers(ck)
     lap('writers')
+    tied_g = corr_histories(ck)
+    lap('histories')
     if not directed_done:
         directed_tables(ck)
     lap('directed')
     search(ck)
     lap('search')
     ck.extra['proved'] = proved
-    ck.extra['tied'] = bool(tied_a and tied_b and tied_c and tied_d and tied_e and tied_f)
+    ck.extra['tied'] = bool(tied_a and tied_b and tied_c and tied_d and tied_e and tied_f and tied_g)
